@@ -235,6 +235,13 @@ def apply_rewrites(text, log, ctx):
             text = re.sub(r"\b__E\b", "E", text)
             text = re.sub(r"\b__D\b", "D", text)
             log.append({"rule": "R13", "in": ctx, "before": "__E / __D", "after": "E / D (%d occurrences)" % n1})
+    # R20: `std::mem::size_of::<uN / iN>()` (also core::mem / mem::) -> the literal the language fixes for that type. Verus cannot
+    # evaluate size_of in a const item; the byte size of a fixed-width integer is not configuration dependent.
+    def _r20(m):
+        bits = int(m.group(2))
+        log.append({"rule": "R20", "in": ctx, "before": m.group(0), "after": f"{bits // 8}usize"})
+        return f"{bits // 8}usize"
+    text = re.sub(r"\b(?:(?:std|core)::)?mem::size_of::<\s*([ui])(8|16|32|64|128)\s*>\(\)", _r20, text)
     toks = lex(text)
     ct = code_tokens(toks)
     edits = []  # (start,end,replacement,rule)
